@@ -136,7 +136,7 @@ def run(tier, seed):
     import itertools
     for t3 in trip:
         for x, y, z in set(itertools.permutations(t3)):
-            for op in CMP:
+            for op in CMP + ["max", "min"]:
                 add(op, x, y, c=z)
     # (4) seeded operands up to 200 bits
     extra = 3000 if tier == "quick" else 150000
